@@ -64,6 +64,17 @@ static void pointwise_case(const Pattern &pb, int bs) { hx::CaseOptions co; co.m
         pat=pat&&(present==want); if (present&&want) { std::vector<hx::F> ge, hit; for (auto &v : norms) { ge.push_back(hx::le(v,pd[I][J])); hit.push_back(hx::eq(v,pd[I][J])); } fs.push_back(hx::all_of(ge) && hx::any_of(hit)); } }
     hx::require("pointwise: block pattern = blocks with at least one stored entry", pat); hx::prove_all("pointwise: entry = largest |a| in the block", fs); },co); }
 
+// power-method estimate (power_iters > 0): never exceeds the largest singular value of the (diagonally scaled) matrix.
+// Concrete dyadic matrix with SMALL diagonal entries (so that the scaling matters), the library's own pseudo-random start vector.
+//   r <= sigma_max(M)  <=>  r^2 I - M^T M is NOT positive definite  <=>  some leading principal minor of it is <= 0   (Sylvester)
+// a ground formula in algebraic numbers (nested square roots of rationals), decided by z3
+static scalar det_of(std::vector<std::vector<scalar>> Mx) { int n=Mx.size(); if (n==1) return Mx[0][0]; if (n==2) return Mx[0][0]*Mx[1][1]-Mx[0][1]*Mx[1][0]; scalar d=0; for (int j=0;j<n;++j) { std::vector<std::vector<scalar>> S; for (int i=1;i<n;++i) { std::vector<scalar> r; for (int k=0;k<n;++k) if (k!=j) r.push_back(Mx[i][k]); S.push_back(r); } scalar c=Mx[0][j]*det_of(S); d = (j%2) ? d-c : d+c; } return d; }
+static void power_case(const Pattern &p, hx::Rng &rng, int iters, bool scaled) { hx::run_case(std::string("power_method/")+(scaled?"scaled/":"plain/")+"it"+std::to_string(iters)+"/"+p.name,[&]() { hx::Rng r2(rng.s); SCrs A=hx::mmatrix(p,r2); for (auto &v : A.val) v=v/scalar(8); int n=p.n; auto Am=hx::to_amgcl(A);
+    scalar r = scaled ? be::spectral_radius<true>(*Am,iters) : be::spectral_radius<false>(*Am,iters); Dense M=A.dense(); if (scaled) for (int i=0;i<n;++i) { scalar d=M[i][i]; for (int j=0;j<n;++j) M[i][j]=M[i][j]/d; }
+    Dense G(n,std::vector<scalar>(n,scalar(0))); for (int i=0;i<n;++i) for (int j=0;j<n;++j) { scalar t=0; for (int k=0;k<n;++k) t+=M[k][i]*M[k][j]; G[i][j] = (i==j ? r*r : scalar(0)) - t; }
+    std::vector<hx::F> minors; for (int k=1;k<=n;++k) { std::vector<std::vector<scalar>> S(k,std::vector<scalar>(k)); for (int a=0;a<k;++a) for (int b=0;b<k;++b) S[a][b]=G[a][b]; minors.push_back(hx::le(det_of(S),scalar(0))); }
+    hx::prove("power-method estimate r <= largest singular value: r^2 I - M^T M is not positive definite (a leading principal minor is <= 0)", hx::any_of(minors)); }); }
+
 // ragged block rows: an ARBITRARY scalar pattern (the scalar rows of one block row have different block-column patterns)
 static void pointwise_ragged_case(const Pattern &ps, int bs) { hx::CaseOptions co; co.max_paths=64; hx::run_case("pointwise-ragged/b"+std::to_string(bs)+"/"+ps.name,[&]() { SCrs A=hx::symbolic_matrix(ps,"a",false); int nb=ps.n/bs, mb=(ps.m+bs-1)/bs; auto Am=hx::to_amgcl(A); auto P=be::pointwise_matrix(*Am,bs);
     bool shape = P->nrows==(size_t)nb && P->ptr[0]==0; std::vector<ptrdiff_t> want_cnt(nb,0); std::vector<std::vector<std::vector<scalar>>> norms(nb,std::vector<std::vector<scalar>>(mb)); for (int i=0;i<ps.n;++i) for (ptrdiff_t k=ps.ptr[i];k<ps.ptr[i+1];++k) norms[i/bs][ps.col[k]/bs].push_back(hx::sabs(A.val[k]));
@@ -74,7 +85,7 @@ static void pointwise_ragged_case(const Pattern &ps, int bs) { hx::CaseOptions c
 
 int main(int argc, char **argv) {
     hx::parse_args(argc,argv); bool T=hx::thorough(); hx::Rng rng(hx::args().seed);
-    hx::encodes("backend::transpose, product (spgemm_saad), detail spgemm_rmerge (called directly), sum, scale, sort_rows, diagonal, pointwise_matrix, crs copy/tuple/assign/move constructors, spectral_radius<scale>(Gershgorin)  (backend/builtin.hpp, detail/spgemm.hpp, detail/sort_row.hpp)");
+    hx::encodes("backend::transpose, product (spgemm_saad), detail spgemm_rmerge (called directly), sum, scale, sort_rows, diagonal, pointwise_matrix, crs copy/tuple/assign/move constructors, spectral_radius<scale> (Gershgorin and power method)  (backend/builtin.hpp, detail/spgemm.hpp, detail/sort_row.hpp)");
     hx::assume_note("values symbolic; sparsity patterns enumerated exhaustively at the stated sizes (structure is concrete per case in engine S; symbolic structure for sort_row / sort_rows is decided by engine C)");
     hx::assume_note("row-merge SpGEMM requires row-sorted operands (documented); the thread-count dispatch (>16 threads) itself is not executed, both algorithms are called directly");
     hx::assume_note("power-method spectral radius estimate vs largest singular value: not decided (iterative, irrational)");
@@ -87,6 +98,7 @@ int main(int argc, char **argv) {
     for (auto &a : p22) for (auto &b : p22) sum_case(a,b,(a.nnz()+b.nnz())%2); for (int k=0;k<(T?300:40);++k) { sum_case(p33[rng.below(512)],p33[rng.below(512)],k%2); sum_case(reversed(p23[rng.below(64)]),p23[rng.below(64)],false); }
     for (auto &p : p22) misc_case(p); for (int k=0;k<(T?100:24);++k) misc_case(p33[rng.below(512)]); for (int k=0;k<(T?30:8);++k) misc_case(p23[rng.below(64)]);
     for (uint64_t k=0;k<4;++k) { gershgorin_case(hx::mask_pattern(2,2,k*2+k/2*0+ (k&1?2:0) + (k&2?4:0),true),false); gershgorin_case(hx::mask_pattern(2,2,(k&1?2:0)+(k&2?4:0),true),true); } gershgorin_case(hx::band_pattern(3,1),false); gershgorin_case(hx::band_pattern(3,1),true); if (T) { gershgorin_case(hx::dense_pattern(3,3),false); gershgorin_case(hx::band_pattern(4,1),true); }
+    for (auto &p : std::vector<Pattern>{hx::band_pattern(3,1),hx::dense_pattern(3,3),hx::grid_pattern(2,2)}) for (int it : {1,2,3}) for (int sc=0;sc<2;++sc) if (T || p.n==3 || it==2) power_case(p,rng,it,sc);
     for (uint64_t mask=1; mask<256; ++mask) if (T || mask%3==0) pointwise_ragged_case(hx::mask_pattern(2,4,mask,false),2); for (int k=0;k<(T?200:40);++k) { pointwise_ragged_case(hx::mask_pattern(2,8,rng.next()&0xffff,false),2); if (k%4==0) pointwise_ragged_case(hx::mask_pattern(3,6,rng.next()&0x3ffff,false),3); if (k%5==0) pointwise_ragged_case(hx::mask_pattern(4,6,rng.next()&0xffffff,false),2); }
     for (auto &p : p22) if (p.nnz()) { pointwise_case(p,2); } for (int k=0;k<(T?12:3);++k) pointwise_case(p23[1+rng.below(63)],2); pointwise_case(hx::mask_pattern(2,2,0xb,false),3);
     return hx::finish();
